@@ -737,6 +737,7 @@ class SmtLibParser(object):
         # pylint: disable=unused-argument
         self.consume_opening(tokens, "expression")
         newvals = {}
+        visible = set()
         current = "("
         self.consume_opening(tokens, "expression")
         while current != ")":
@@ -746,9 +747,20 @@ class SmtLibParser(object):
             vname = self.parse_atom(tokens, "expression")
             expr = cast(Union[str, FNode], assert_not_none(self.get_expression(tokens)))
             newvals[vname] = expr
-            self.cache.bind(vname, expr)
+            # The bindings of a let are simultaneous: the bound terms
+            # are read in the enclosing scope and only the body sees
+            # the new names. As an extension, a name that is not
+            # defined in the enclosing scope is visible to the later
+            # bindings of the same let.
+            if self.cache.get(vname) is None:
+                self.cache.bind(vname, expr)
+                visible.add(vname)
             self.consume_closing(tokens, "expression")
             current = tokens.consume()
+
+        for vname, expr in newvals.items():
+            if vname not in visible:
+                self.cache.bind(vname, expr)
 
         stack[-1].append(self._exit_let)
         stack[-1].append(newvals.keys())
